@@ -4,13 +4,22 @@
 //! C15 "Emplacement into any buffer either succeeds correctly or reports the right error"
 //! C18 "A failed in-place assignment leaves a valid value behind"
 //! C20 "default_in_place produces the documented default state for every type"
+//! C14 (emplace part) "constructing a value only modifies bytes inside the slice handed to the library"
 //!
 //! Every harness is a contract harness: assume the precondition, call the REAL public API, assert the postcondition
 //! against a reference written from the documented format (C layout rule; enum = tag then payload at the tag size
 //! rounded up to the enum's alignment; FlatVec = length at 0, elements at max(size_of L, align_of T); sizes rounded
 //! up to the type's alignment; portable scalars = fixed byte order, alignment 1).
+//!
 //! BOUNDED stand-ins: buffer length <= N (stated per harness); length, misalignment, prior contents ("garbage"),
 //! scalar values, variant and container fill are symbolic.
+//!
+//! Buffer shape.  `with_buf` carves the slice handed to the library out of the MIDDLE of a larger 8-aligned backing
+//! array whose every byte is symbolic garbage: slice = backing[8 + off .. 8 + off + len] with symbolic len <= N and
+//! symbolic off < ALIGN.  After the call every backing byte outside the slice must be unchanged (C14, second form).
+//! (A symbolic-size heap allocation from util::sym_slice makes every WRITE a symbolic-size array update: one
+//! emplace harness then needs > 10 GB; the exact-size allocation is therefore used with concrete lengths only, in
+//! the c03_exact_* harnesses: C14, first form -- CBMC flags any access past the slice.)
 use crate::corpus::*;
 use crate::reference::*;
 use crate::util::*;
@@ -22,6 +31,29 @@ use flatty::{flat, flat_vec, Emplacer, FlatString, FlatVec, FlatWrap, FlexVec};
 // ------------------------------------------------------------------------------------------------------------------
 // helpers
 // ------------------------------------------------------------------------------------------------------------------
+
+const PRE: usize = 8;
+
+#[repr(C, align(8))]
+struct Backing<const T: usize>([u8; T]);
+
+/// Runs `f(slice, len, off)` on a slice of symbolic length `len <= n` that starts `off < align` bytes past an
+/// 8-aligned address, in the middle of a T-byte backing array full of symbolic garbage; then checks the canaries.
+fn with_buf<const T: usize>(n: usize, align: usize, f: impl FnOnce(&mut [u8], usize, usize)) {
+    assert!(align <= 8 && PRE + (align - 1) + n < T);
+    let mut back = Backing::<T>(kani::any());
+    let orig = back.0;
+    let (len, off) = any_len_off(n, align);
+    f(&mut back.0[PRE + off..PRE + off + len], len, off);
+    // C14: nothing outside the slice handed to the library was modified
+    let mut i = 0;
+    while i < T {
+        if i < PRE + off || i >= PRE + off + len {
+            assert!(back.0[i] == orig[i], "C14: a byte outside the slice handed to the library was modified");
+        }
+        i += 1;
+    }
+}
 
 fn is_kind<T>(r: &Result<T, Error>, k: ErrorKind) -> bool {
     matches!(r, Err(e) if e.kind == k)
@@ -40,199 +72,6 @@ macro_rules! c15_outcome {
     };
 }
 
-/// symbolic array of K bytes
-fn any_bytes<const K: usize>() -> [u8; K] {
-    let a: [u8; K] = kani::any();
-    a
-}
-
-/// copy of the first `len` bytes of `b` (rest 0) -- snapshot of a buffer before an operation
-fn snapshot<const K: usize>(b: &[u8]) -> [u8; K] {
-    let mut s = [0u8; K];
-    let mut i = 0;
-    while i < K {
-        if i < b.len() { s[i] = b[i]; }
-        i += 1;
-    }
-    s
-}
-
-fn bool_byte(x: bool) -> u8 { if x { 1 } else { 0 } }
-
-// ------------------------------------------------------------------------------------------------------------------
-// C15 + C03: sized types (the value is its own emplacer)
-// ------------------------------------------------------------------------------------------------------------------
-
-/// SBool (align 4, size 12): x@0 u16, flag@2, arr@3..5, y@8 u32.  N = 14: every length 0..=14, every offset 0..4.
-#[kani::proof]
-#[kani::unwind(16)]
-fn c15_sbool_new_in_place() {
-    const N: usize = 14;
-    let (len, off) = any_len_off(N, 4);
-    let b = sym_slice(len, 4, off, N);
-    let x: u16 = kani::any();
-    let y: u32 = kani::any();
-    let (f, a0, a1): (bool, bool, bool) = (kani::any(), kani::any(), kani::any());
-    let val = SBool { x, flag: Bool::from(f), arr: [Bool::from(a0), Bool::from(a1)], y };
-    let r = SBool::new_in_place(b, val.clone());
-    c15_outcome!(r, off, len, 12);
-    if let Ok(v) = r {
-        // C03: read back
-        assert!(*v == val);
-        assert!(v.x == x && v.y == y && bool::from(v.flag) == f && bool::from(v.arr[0]) == a0 && bool::from(v.arr[1]) == a1);
-        assert!(v.size() == 12);
-        // C03: byte image (native layout), non-padding bytes only
-        let img = v.as_bytes();
-        assert!(img.len() == 12);
-        assert!(img[0] == x.to_ne_bytes()[0] && img[1] == x.to_ne_bytes()[1]);
-        assert!(img[2] == bool_byte(f) && img[3] == bool_byte(a0) && img[4] == bool_byte(a1));
-        assert!(rd_u32(img, 8) == y);
-        // C03: bytes validate
-        assert!(SBool::validate(b).is_ok());
-    }
-}
-
-/// SStruct (align 8, size 24): a@0, b@2, c@4, d@8..24.  N = 26.
-#[kani::proof]
-#[kani::unwind(28)]
-fn c15_sstruct_new_in_place() {
-    const N: usize = 26;
-    let (len, off) = any_len_off(N, 8);
-    let b = sym_slice(len, 8, off, N);
-    let val = SStruct { a: kani::any(), b: kani::any(), c: kani::any(), d: [kani::any(), kani::any()] };
-    let r = SStruct::new_in_place(b, val.clone());
-    c15_outcome!(r, off, len, 24);
-    if let Ok(v) = r {
-        assert!(*v == val);
-        assert!(v.size() == 24);
-        let img = v.as_bytes();
-        assert!(img.len() == 24);
-        assert!(img[0] == val.a);
-        assert!(rd_u16(img, 2) == val.b);
-        assert!(rd_u32(img, 4) == val.c);
-        let d0 = val.d[0].to_ne_bytes();
-        let d1 = val.d[1].to_ne_bytes();
-        let mut i = 0;
-        while i < 8 {
-            assert!(img[8 + i] == d0[i] && img[16 + i] == d1[i]);
-            i += 1;
-        }
-        assert!(SStruct::validate(b).is_ok());
-    }
-}
-
-/// SEnum (tag u8 @0, payload @4, align 4, size 8), EVERY variant.  N = 10.
-#[kani::proof]
-#[kani::unwind(12)]
-fn c15_senum_new_in_place() {
-    const N: usize = 10;
-    let (len, off) = any_len_off(N, 4);
-    let b = sym_slice(len, 4, off, N);
-    let which: u8 = kani::any();
-    kani::assume(which < 4);
-    let (p16, p8, p32): (u16, u8, u32) = (kani::any(), kani::any(), kani::any());
-    let val = match which {
-        0 => SEnum::A,
-        1 => SEnum::B(p16, p8),
-        2 => SEnum::C { a: p8, b: p16 },
-        _ => SEnum::D(p32),
-    };
-    let r = SEnum::new_in_place(b, val.clone());
-    c15_outcome!(r, off, len, 8);
-    if let Ok(v) = r {
-        assert!(*v == val);
-        assert!(v.size() == 8);
-        let img = v.as_bytes();
-        assert!(img.len() == 8);
-        assert!(img[0] == which, "C03: tag byte is not the variant index");
-        match which {
-            0 => {}
-            1 => assert!(rd_u16(img, 4) == p16 && img[6] == p8),
-            2 => assert!(img[4] == p8 && rd_u16(img, 6) == p16),
-            _ => assert!(rd_u32(img, 4) == p32),
-        }
-        assert!(SEnum::validate(b).is_ok());
-    }
-}
-
-/// CEnum (one byte).  N = 3.
-#[kani::proof]
-#[kani::unwind(5)]
-fn c15_cenum_new_in_place() {
-    const N: usize = 3;
-    let (len, off) = any_len_off(N, 1);
-    let b = sym_slice(len, 1, off, N);
-    let which: u8 = kani::any();
-    kani::assume(which < 3);
-    let val = match which { 0 => CEnum::A, 1 => CEnum::B, _ => CEnum::C };
-    let r = CEnum::new_in_place(b, val);
-    c15_outcome!(r, off, len, 1);
-    if let Ok(v) = r {
-        assert!(*v == val);
-        assert!(v.size() == 1);
-        assert!(v.as_bytes().len() == 1 && v.as_bytes()[0] == which);
-        assert!(CEnum::validate(b).is_ok());
-    }
-}
-
-/// PStruct (portable, align 1, size 8): a@0, b@1..3 LITTLE endian, c@3..7 BIG endian, f@7.  N = 10.
-#[kani::proof]
-#[kani::unwind(12)]
-fn c15_pstruct_new_in_place() {
-    const N: usize = 10;
-    let (len, off) = any_len_off(N, 1);
-    let b = sym_slice(len, 1, off, N);
-    let (a, x, y, f): (u8, u16, u32, bool) = (kani::any(), kani::any(), kani::any(), kani::any());
-    let r = PStruct::new_in_place(b, PStruct { a, b: le::U16::from(x), c: be::U32::from(y), f: Bool::from(f) });
-    c15_outcome!(r, off, len, 8);
-    if let Ok(v) = r {
-        assert!(v.a == a && u16::from(v.b) == x && u32::from(v.c) == y && bool::from(v.f) == f);
-        assert!(v.size() == 8);
-        let img = v.as_bytes();
-        assert!(img.len() == 8);
-        assert!(img[0] == a);
-        assert!(img[1] == x.to_le_bytes()[0] && img[2] == x.to_le_bytes()[1], "C03: le::U16 is not stored little-endian");
-        let yb = y.to_be_bytes();
-        assert!(img[3] == yb[0] && img[4] == yb[1] && img[5] == yb[2] && img[6] == yb[3], "C03: be::U32 is not stored big-endian");
-        assert!(img[7] == bool_byte(f));
-        assert!(PStruct::validate(b).is_ok());
-    }
-}
-
-// ------------------------------------------------------------------------------------------------------------------
-// C15 + C03: unsized struct, generated *Init emplacer with a nested flat_vec! (FromArray) emplacer
-// ------------------------------------------------------------------------------------------------------------------
-
-/// UStruct (align 2): a@0, b@2..4, c = FlatVec<u8,u16> @4: length @4..6, elements @6+i; size = ceil(6 + K, 2).
-/// One harness per array length K (the emplacer type FromArray<u8, K> depends on it); N = 11: every length 0..=11 and
-/// both offsets; K from empty (0) over full (4 at len 10/11) to more than fits (5).
-fn ustruct_from_array<const K: usize>() {
-    const N: usize = 11;
-    let (len, off) = any_len_off(N, 2);
-    let b = sym_slice(len, 2, off, N);
-    let (a, bb): (u8, u16) = (kani::any(), kani::any());
-    let e: [u8; K] = any_bytes();
-    let r = UStruct::new_in_place(b, UStructInit { a, b: bb, c: flatty::vec::FromArray(e) });
-    let need = ceil_to(6 + K, 2);
-    c15_outcome!(r, off, len, need);
-    if let Ok(v) = r {
-        assert!(v.a == a && v.b == bb);
-        assert!(v.c.len() == K, "C03: vector length differs from the emplaced array");
-        assert!(v.c.capacity() == floor_to(len, 2) - 6);
-        assert!(v.size() == need, "C03/C05: size() is not the documented size of the content");
-        let s = v.c.as_slice();
-        let img = v.as_bytes();
-        assert!(img.len() == floor_to(len, 2));
-        assert!(img[0] == a && rd_u16(img, 2) == bb && rd_u16(img, 4) as usize == K);
-        let mut i = 0;
-        while i < K {
-            assert!(s[i] == e[i], "C03: element read back differs");
-            assert!(img[6 + i] == e[i], "C03: element byte image differs");
-            i += 1;
-        }
-        assert!(UStruct::validate(b).is_ok());
-    }
-}
 macro_rules! stamp {
     ($name:ident, $unwind:expr, $body:expr) => {
         #[kani::proof]
@@ -240,49 +79,938 @@ macro_rules! stamp {
         fn $name() { $body }
     };
 }
-stamp!(c15_ustruct_from_array_k0, 13, ustruct_from_array::<0>());
-stamp!(c15_ustruct_from_array_k1, 13, ustruct_from_array::<1>());
-stamp!(c15_ustruct_from_array_k4, 13, ustruct_from_array::<4>());
-stamp!(c15_ustruct_from_array_k5, 13, ustruct_from_array::<5>());
 
-
-#[repr(C, align(8))]
-struct Backing<const T: usize>([u8; T]);
-
-fn ustruct_probe2<const K: usize>(b: &mut [u8], len: usize, off: usize) {
-    let (a, bb): (u8, u16) = (kani::any(), kani::any());
-    let e: [u8; K] = any_bytes();
-    let r = UStruct::new_in_place(b, UStructInit { a, b: bb, c: flatty::vec::FromArray(e) });
-    let need = ceil_to(6 + K, 2);
-    c15_outcome!(r, off, len, need);
-    if let Ok(v) = r {
-        assert!(v.a == a && v.b == bb);
-        assert!(v.c.len() == K, "C03: vector length differs from the emplaced array");
-        let s = v.c.as_slice();
-        let img = v.as_bytes();
-        assert!(img[0] == a && rd_u16(img, 2) == bb && rd_u16(img, 4) as usize == K);
-        let mut i = 0;
-        while i < K {
-            assert!(s[i] == e[i], "C03: element read back differs");
-            assert!(img[6 + i] == e[i], "C03: element byte image differs");
-            i += 1;
-        }
-        assert!(UStruct::validate(b).is_ok());
-    }
+fn any_arr<T: kani::Arbitrary, const K: usize>() -> [T; K] {
+    kani::any()
 }
-stamp!(c15_probe_concrete, 13, { let b = sym_slice(10, 2, 0, 11); ustruct_probe2::<4>(b, 10, 0) });
-stamp!(c15_probe_prefix, 13, {
-    let mut back = Backing::<16>(kani::any());
-    let len: usize = kani::any();
-    kani::assume(len <= 11);
-    let b = &mut back.0[..len];
-    ustruct_probe2::<4>(b, len, 0)
+
+fn bool_byte(x: bool) -> u8 { if x { 1 } else { 0 } }
+
+fn any_fill(max: usize) -> usize {
+    let k: usize = kani::any();
+    kani::assume(k <= max);
+    k
+}
+
+/// dispatch on a symbolic fill `k` (0..=5) to the array-typed emplacer flat_vec![e0, .., e(k-1)]
+macro_rules! with_flat_vec {
+    ($k:expr, $e:expr, |$fv:ident| $body:expr) => {
+        match $k {
+            0 => { let $fv = flat_vec![]; $body }
+            1 => { let $fv = flat_vec![$e[0]]; $body }
+            2 => { let $fv = flat_vec![$e[0], $e[1]]; $body }
+            3 => { let $fv = flat_vec![$e[0], $e[1], $e[2]]; $body }
+            4 => { let $fv = flat_vec![$e[0], $e[1], $e[2], $e[3]]; $body }
+            _ => { let $fv = flat_vec![$e[0], $e[1], $e[2], $e[3], $e[4]]; $body }
+        }
+    };
+}
+
+// ------------------------------------------------------------------------------------------------------------------
+// C15 + C03 (+C14): sized types (the value is its own emplacer)
+// ------------------------------------------------------------------------------------------------------------------
+
+/// SBool (align 4, size 12): x@0 u16, flag@2, arr@3..5, y@8 u32.  N = 14: every length 0..=14, every offset 0..4.
+#[kani::proof]
+#[kani::unwind(34)]
+fn c15_sbool_new_in_place() {
+    with_buf::<32>(14, 4, |b, len, off| {
+        let x: u16 = kani::any();
+        let y: u32 = kani::any();
+        let (f, a0, a1): (bool, bool, bool) = (kani::any(), kani::any(), kani::any());
+        let val = SBool { x, flag: Bool::from(f), arr: [Bool::from(a0), Bool::from(a1)], y };
+        let r = SBool::new_in_place(b, val.clone());
+        c15_outcome!(r, off, len, 12);
+        if let Ok(v) = r {
+            // C03: read back
+            assert!(*v == val);
+            assert!(v.x == x && v.y == y && bool::from(v.flag) == f && bool::from(v.arr[0]) == a0 && bool::from(v.arr[1]) == a1);
+            assert!(v.size() == 12);
+            // C03: byte image (native layout), non-padding bytes only
+            let img = v.as_bytes();
+            assert!(img.len() == 12);
+            assert!(rd_u16(img, 0) == x);
+            assert!(img[2] == bool_byte(f) && img[3] == bool_byte(a0) && img[4] == bool_byte(a1));
+            assert!(rd_u32(img, 8) == y);
+            // C03: bytes validate
+            assert!(SBool::validate(b).is_ok());
+        }
+    });
+}
+
+/// SStruct (align 8, size 24): a@0, b@2, c@4, d@8..24.  N = 26.
+#[kani::proof]
+#[kani::unwind(50)]
+fn c15_sstruct_new_in_place() {
+    with_buf::<48>(26, 8, |b, len, off| {
+        let val = SStruct { a: kani::any(), b: kani::any(), c: kani::any(), d: [kani::any(), kani::any()] };
+        let r = SStruct::new_in_place(b, val.clone());
+        c15_outcome!(r, off, len, 24);
+        if let Ok(v) = r {
+            assert!(*v == val);
+            assert!(v.size() == 24);
+            let img = v.as_bytes();
+            assert!(img.len() == 24);
+            assert!(img[0] == val.a);
+            assert!(rd_u16(img, 2) == val.b);
+            assert!(rd_u32(img, 4) == val.c);
+            let d0 = val.d[0].to_ne_bytes();
+            let d1 = val.d[1].to_ne_bytes();
+            let mut i = 0;
+            while i < 8 {
+                assert!(img[8 + i] == d0[i] && img[16 + i] == d1[i]);
+                i += 1;
+            }
+            assert!(SStruct::validate(b).is_ok());
+        }
+    });
+}
+
+/// SEnum (tag u8 @0, payload @4, align 4, size 8), EVERY variant.  N = 10.
+#[kani::proof]
+#[kani::unwind(26)]
+fn c15_senum_new_in_place() {
+    with_buf::<24>(10, 4, |b, len, off| {
+        let which: u8 = kani::any();
+        kani::assume(which < 4);
+        let (p16, p8, p32): (u16, u8, u32) = (kani::any(), kani::any(), kani::any());
+        let val = match which {
+            0 => SEnum::A,
+            1 => SEnum::B(p16, p8),
+            2 => SEnum::C { a: p8, b: p16 },
+            _ => SEnum::D(p32),
+        };
+        let r = SEnum::new_in_place(b, val.clone());
+        c15_outcome!(r, off, len, 8);
+        if let Ok(v) = r {
+            assert!(*v == val);
+            assert!(v.size() == 8);
+            let img = v.as_bytes();
+            assert!(img.len() == 8);
+            assert!(img[0] == which, "C03: tag byte is not the variant index");
+            match which {
+                0 => {}
+                1 => assert!(rd_u16(img, 4) == p16 && img[6] == p8),
+                2 => assert!(img[4] == p8 && rd_u16(img, 6) == p16),
+                _ => assert!(rd_u32(img, 4) == p32),
+            }
+            assert!(SEnum::validate(b).is_ok());
+        }
+    });
+}
+
+/// CEnum (one byte).  N = 3.
+#[kani::proof]
+#[kani::unwind(18)]
+fn c15_cenum_new_in_place() {
+    with_buf::<16>(3, 1, |b, len, off| {
+        let which: u8 = kani::any();
+        kani::assume(which < 3);
+        let val = match which { 0 => CEnum::A, 1 => CEnum::B, _ => CEnum::C };
+        let r = CEnum::new_in_place(b, val);
+        c15_outcome!(r, off, len, 1);
+        if let Ok(v) = r {
+            assert!(*v == val);
+            assert!(v.size() == 1);
+            assert!(v.as_bytes().len() == 1 && v.as_bytes()[0] == which);
+            assert!(CEnum::validate(b).is_ok());
+        }
+    });
+}
+
+/// PStruct (portable, align 1, size 8): a@0, b@1..3 LITTLE endian, c@3..7 BIG endian, f@7.  N = 10.
+#[kani::proof]
+#[kani::unwind(26)]
+fn c15_pstruct_new_in_place() {
+    with_buf::<24>(10, 1, |b, len, off| {
+        let (a, x, y, f): (u8, u16, u32, bool) = (kani::any(), kani::any(), kani::any(), kani::any());
+        let r = PStruct::new_in_place(b, PStruct { a, b: le::U16::from(x), c: be::U32::from(y), f: Bool::from(f) });
+        c15_outcome!(r, off, len, 8);
+        if let Ok(v) = r {
+            assert!(v.a == a && u16::from(v.b) == x && u32::from(v.c) == y && bool::from(v.f) == f);
+            assert!(v.size() == 8);
+            let img = v.as_bytes();
+            assert!(img.len() == 8);
+            assert!(img[0] == a);
+            assert!(img[1] == x.to_le_bytes()[0] && img[2] == x.to_le_bytes()[1], "C03: le::U16 is not stored little-endian");
+            let yb = y.to_be_bytes();
+            assert!(img[3] == yb[0] && img[4] == yb[1] && img[5] == yb[2] && img[6] == yb[3], "C03: be::U32 is not stored big-endian");
+            assert!(img[7] == bool_byte(f));
+            assert!(PStruct::validate(b).is_ok());
+        }
+    });
+}
+
+// ------------------------------------------------------------------------------------------------------------------
+// C15 + C03 (+C14): unsized structs, generated *Init emplacer with a nested flat_vec! (FromArray) emplacer
+// ------------------------------------------------------------------------------------------------------------------
+
+/// UStruct (align 2): a@0, b@2..4, c = FlatVec<u8,u16> @4: length @4..6, elements @6+i; size = ceil(6 + k, 2).
+/// N = 11 (capacity 0..=4), fill k in 0..=5: from empty over full to more than fits.
+#[kani::proof]
+#[kani::unwind(30)]
+fn c15_ustruct_new_in_place() {
+    with_buf::<28>(11, 2, |b, len, off| {
+        let (a, bb): (u8, u16) = (kani::any(), kani::any());
+        let e: [u8; 5] = any_arr();
+        let k = any_fill(5);
+        let r = with_flat_vec!(k, e, |fv| UStruct::new_in_place(b, UStructInit { a, b: bb, c: fv }));
+        let need = ceil_to(6 + k, 2);
+        c15_outcome!(r, off, len, need);
+        if let Ok(v) = r {
+            assert!(v.a == a && v.b == bb);
+            assert!(v.c.len() == k, "C03: vector length differs from the emplaced array");
+            assert!(v.c.capacity() == floor_to(len, 2) - 6);
+            assert!(v.size() == need, "C03/C05: size() is not the documented size of the content");
+            let s = v.c.as_slice();
+            let img = v.as_bytes();
+            assert!(img.len() == floor_to(len, 2));
+            assert!(img[0] == a && rd_u16(img, 2) == bb && rd_u16(img, 4) as usize == k);
+            let mut i = 0;
+            while i < 5 {
+                if i < k {
+                    assert!(s[i] == e[i], "C03: element read back differs");
+                    assert!(img[6 + i] == e[i], "C03: element byte image differs");
+                }
+                i += 1;
+            }
+            assert!(UStruct::validate(b).is_ok());
+        }
+    });
+}
+
+/// UPad (align 8, trailing padding): a u64 @0..8, v = FlatVec<u8,u16> @8: length @8..10, elements @10+i;
+/// size = ceil(10 + k, 8).  N = 18 (lengths 16..=18 hold up to 6 elements); fills 0, 1, 6 (full), 7 (too many).
+#[kani::proof]
+#[kani::unwind(42)]
+fn c15_upad_new_in_place() {
+    with_buf::<40>(18, 8, |b, len, off| {
+        let a: u64 = kani::any();
+        let e: [u8; 7] = any_arr();
+        let sel: u8 = kani::any();
+        let (k, r) = match sel {
+            0 => (0, UPad::new_in_place(b, UPadInit { a, v: flat_vec![] })),
+            1 => (1, UPad::new_in_place(b, UPadInit { a, v: flat_vec![e[0]] })),
+            2 => (6, UPad::new_in_place(b, UPadInit { a, v: flat_vec![e[0], e[1], e[2], e[3], e[4], e[5]] })),
+            _ => (7, UPad::new_in_place(b, UPadInit { a, v: flatty::vec::FromArray(e) })),
+        };
+        let need = ceil_to(10 + k, 8);
+        c15_outcome!(r, off, len, need);
+        if let Ok(v) = r {
+            assert!(v.a == a);
+            assert!(v.v.len() == k);
+            assert!(v.v.capacity() == floor_to(len, 8) - 10);
+            assert!(v.size() == need, "C03/C05: size() is not the documented (padded) size of the content");
+            let s = v.v.as_slice();
+            let img = v.as_bytes();
+            assert!(img.len() == floor_to(len, 8));
+            let ab = a.to_ne_bytes();
+            let mut i = 0;
+            while i < 8 {
+                assert!(img[i] == ab[i]);
+                i += 1;
+            }
+            assert!(rd_u16(img, 8) as usize == k);
+            let mut i = 0;
+            while i < 7 {
+                if i < k { assert!(s[i] == e[i] && img[10 + i] == e[i]); }
+                i += 1;
+            }
+            assert!(UPad::validate(b).is_ok());
+        }
+    });
+}
+
+/// PUStruct (portable, align 1): a le::U16 @0..2, b = FlatVec<be::U16, le::U16> @2: length @2..4 LITTLE endian,
+/// element i @4+2i BIG endian; size = 4 + 2k.  N = 11 (capacity 0..=3), fill 0..=4.
+#[kani::proof]
+#[kani::unwind(30)]
+fn c15_pustruct_new_in_place() {
+    with_buf::<28>(11, 1, |b, len, off| {
+        let a: u16 = kani::any();
+        let x: [u16; 5] = any_arr();
+        let e = [be::U16::from(x[0]), be::U16::from(x[1]), be::U16::from(x[2]), be::U16::from(x[3]), be::U16::from(x[4])];
+        let k = any_fill(4);
+        let r = with_flat_vec!(k, e, |fv| PUStruct::new_in_place(b, PUStructInit { a: le::U16::from(a), b: fv }));
+        let need = 4 + 2 * k;
+        c15_outcome!(r, off, len, need);
+        if let Ok(v) = r {
+            assert!(u16::from(v.a) == a);
+            assert!(v.b.len() == k && v.b.capacity() == (len - 4) / 2);
+            assert!(v.size() == need);
+            let s = v.b.as_slice();
+            let img = v.as_bytes();
+            assert!(img[0] == a.to_le_bytes()[0] && img[1] == a.to_le_bytes()[1], "C03: le::U16 field is not little-endian");
+            assert!(img[2] == k as u8 && img[3] == 0, "C03: le::U16 vector length is not little-endian");
+            let mut i = 0;
+            while i < 4 {
+                if i < k {
+                    assert!(u16::from(s[i]) == x[i]);
+                    assert!(img[4 + 2 * i] == x[i].to_be_bytes()[0] && img[5 + 2 * i] == x[i].to_be_bytes()[1], "C03: be::U16 element is not big-endian");
+                }
+                i += 1;
+            }
+            assert!(PUStruct::validate(b).is_ok());
+        }
+    });
+}
+
+// ------------------------------------------------------------------------------------------------------------------
+// C15 + C03 (+C14): unsized enums, every variant (generated *InitVariant emplacers)
+// ------------------------------------------------------------------------------------------------------------------
+
+/// UEnum (align 4): tag u8 @0, payload @4.  A: size 4.  B(u8 @4, u16 @6..8): size 8.  N = 10.
+#[kani::proof]
+#[kani::unwind(30)]
+fn c15_uenum_ab_new_in_place() {
+    with_buf::<28>(10, 4, |b, len, off| {
+        let (x, y): (u8, u16) = (kani::any(), kani::any());
+        let is_b: bool = kani::any();
+        let r = if is_b { UEnum::new_in_place(b, UEnumInitB(x, y)) } else { UEnum::new_in_place(b, UEnumInitA) };
+        let need = if is_b { 8 } else { 4 };
+        c15_outcome!(r, off, len, need);
+        if let Ok(v) = r {
+            assert!(v.size() == need);
+            match v.as_ref() {
+                UEnumRef::A => assert!(!is_b),
+                UEnumRef::B(p, q) => assert!(is_b && *p == x && *q == y),
+                _ => panic!("C03: wrong variant read back"),
+            }
+            let img = v.as_bytes();
+            assert!(img[0] == bool_byte(is_b), "C03: tag byte is not the variant index");
+            if is_b { assert!(img[4] == x && rd_u16(img, 6) == y); }
+            assert!(UEnum::validate(b).is_ok());
+        }
+    });
+}
+
+/// UEnum::C { offset: u32 @4..8, bytes: FlatVec<u8,u16> @8: length @8..10, elements @10+i }: size = ceil(10 + k, 4).
+/// N = 17 (capacity up to 6); fill 0..=5 via flat_vec!, plus 7 (too many for every length).
+#[kani::proof]
+#[kani::unwind(38)]
+fn c15_uenum_c_new_in_place() {
+    with_buf::<36>(17, 4, |b, len, off| {
+        let offset: u32 = kani::any();
+        let e: [u8; 7] = any_arr();
+        let k: usize = kani::any();
+        kani::assume(k <= 5 || k == 7);
+        let r = if k == 7 {
+            UEnum::new_in_place(b, UEnumInitC { offset, bytes: flatty::vec::FromArray(e) })
+        } else {
+            with_flat_vec!(k, e, |fv| UEnum::new_in_place(b, UEnumInitC { offset, bytes: fv }))
+        };
+        let need = ceil_to(10 + k, 4);
+        c15_outcome!(r, off, len, need);
+        if let Ok(v) = r {
+            assert!(v.size() == need, "C03/C05: size() is not the documented size of the content");
+            let img = v.as_bytes();
+            assert!(img[0] == 2 && rd_u32(img, 4) == offset && rd_u16(img, 8) as usize == k);
+            match v.as_ref() {
+                UEnumRef::C { offset: o, bytes } => {
+                    assert!(*o == offset && bytes.len() == k);
+                    assert!(bytes.capacity() == floor_to(len, 4) - 10);
+                    let s = bytes.as_slice();
+                    let mut i = 0;
+                    while i < 5 {
+                        if i < k { assert!(s[i] == e[i] && img[10 + i] == e[i]); }
+                        i += 1;
+                    }
+                }
+                _ => panic!("C03: wrong variant read back"),
+            }
+            assert!(UEnum::validate(b).is_ok());
+        }
+    });
+}
+
+/// PUEnum (portable, align 1): tag @0, payload @1.  A: size 1.  B(be::U16 @1..3, u8 @3): size 4.
+/// C(PUStruct @1: a @1..3 LE, length @3..5 LE, element i @5+2i BE): size 5 + 2k -- NESTED generated emplacers.
+/// N = 10 (capacity 0..=2), fill 0..=3.
+#[kani::proof]
+#[kani::unwind(30)]
+fn c15_puenum_new_in_place() {
+    with_buf::<28>(10, 1, |b, len, off| {
+        let which: u8 = kani::any();
+        kani::assume(which < 3);
+        let (x, y, a): (u16, u8, u16) = (kani::any(), kani::any(), kani::any());
+        let w: [u16; 3] = any_arr();
+        let e = [be::U16::from(w[0]), be::U16::from(w[1]), be::U16::from(w[2])];
+        let k = any_fill(3);
+        let r = match which {
+            0 => PUEnum::new_in_place(b, PUEnumInitA),
+            1 => PUEnum::new_in_place(b, PUEnumInitB(be::U16::from(x), y)),
+            _ => match k {
+                0 => PUEnum::new_in_place(b, PUEnumInitC(PUStructInit { a: le::U16::from(a), b: flat_vec![] })),
+                1 => PUEnum::new_in_place(b, PUEnumInitC(PUStructInit { a: le::U16::from(a), b: flat_vec![e[0]] })),
+                2 => PUEnum::new_in_place(b, PUEnumInitC(PUStructInit { a: le::U16::from(a), b: flat_vec![e[0], e[1]] })),
+                _ => PUEnum::new_in_place(b, PUEnumInitC(PUStructInit { a: le::U16::from(a), b: flat_vec![e[0], e[1], e[2]] })),
+            },
+        };
+        let need = match which { 0 => 1, 1 => 4, _ => 5 + 2 * k };
+        c15_outcome!(r, off, len, need);
+        if let Ok(v) = r {
+            assert!(v.size() == need);
+            let img = v.as_bytes();
+            assert!(img[0] == which);
+            match v.as_ref() {
+                PUEnumRef::A => assert!(which == 0),
+                PUEnumRef::B(p, q) => {
+                    assert!(which == 1 && u16::from(*p) == x && *q == y);
+                    assert!(img[1] == x.to_be_bytes()[0] && img[2] == x.to_be_bytes()[1] && img[3] == y);
+                }
+                PUEnumRef::C(s) => {
+                    assert!(which == 2 && u16::from(s.a) == a && s.b.len() == k);
+                    assert!(img[1] == a.to_le_bytes()[0] && img[2] == a.to_le_bytes()[1]);
+                    assert!(img[3] == k as u8 && img[4] == 0);
+                    let sl = s.b.as_slice();
+                    let mut i = 0;
+                    while i < 3 {
+                        if i < k {
+                            assert!(u16::from(sl[i]) == w[i]);
+                            assert!(img[5 + 2 * i] == w[i].to_be_bytes()[0] && img[6 + 2 * i] == w[i].to_be_bytes()[1]);
+                        }
+                        i += 1;
+                    }
+                }
+            }
+            assert!(PUEnum::validate(b).is_ok());
+        }
+    });
+}
+
+// ------------------------------------------------------------------------------------------------------------------
+// C15 + C03 (+C14): containers on their own
+// ------------------------------------------------------------------------------------------------------------------
+
+/// FlatVec<u8,u16> via flat_vec!/FromArray: length @0..2, elements @2+i, size = ceil(2 + k, 2).  N = 9.
+#[kani::proof]
+#[kani::unwind(26)]
+fn c15_vec_u8_u16_from_array() {
+    with_buf::<24>(9, 2, |b, len, off| {
+        let e: [u8; 5] = any_arr();
+        let k = any_fill(5);
+        let r = with_flat_vec!(k, e, |fv| FlatVec::<u8, u16>::new_in_place(b, fv));
+        let need = ceil_to(2 + k, 2);
+        c15_outcome!(r, off, len, need);
+        if let Ok(v) = r {
+            assert!(v.len() == k && v.capacity() == floor_to(len - 2, 2));
+            assert!(v.size() == need);
+            let s = v.as_slice();
+            let img = v.as_bytes();
+            assert!(rd_u16(img, 0) as usize == k);
+            let mut i = 0;
+            while i < 5 {
+                if i < k { assert!(s[i] == e[i] && img[2 + i] == e[i]); }
+                i += 1;
+            }
+            assert!(FlatVec::<u8, u16>::validate(b).is_ok());
+        }
+    });
+}
+
+/// FlatVec<u32,u16> via flatty::vec::FromIterator with a symbolic number of items: align 4, length @0..2, elements
+/// at max(2, 4) = 4 + 4i, size = 4 + 4k.  N = 14 (capacity 0..=2), 0..=3 items.
+#[kani::proof]
+#[kani::unwind(34)]
+fn c15_vec_u32_u16_from_iterator() {
+    with_buf::<32>(14, 4, |b, len, off| {
+        let e: [u32; 3] = any_arr();
+        let k = any_fill(3);
+        let r = FlatVec::<u32, u16>::new_in_place(b, flatty::vec::FromIterator(e.into_iter().take(k)));
+        let need = 4 + 4 * k;
+        c15_outcome!(r, off, len, need);
+        if let Ok(v) = r {
+            assert!(v.len() == k && v.capacity() == (floor_to(len, 4) - 4) / 4);
+            assert!(v.size() == need);
+            let s = v.as_slice();
+            let img = v.as_bytes();
+            assert!(rd_u16(img, 0) as usize == k);
+            let mut i = 0;
+            while i < 3 {
+                if i < k { assert!(s[i] == e[i] && rd_u32(img, 4 + 4 * i) == e[i]); }
+                i += 1;
+            }
+            assert!(FlatVec::<u32, u16>::validate(b).is_ok());
+        }
+    });
+}
+
+/// FlatString<u16> via flatty::string::FromStr with a symbolic string (any valid UTF-8 of 0..=3 bytes): length
+/// @0..2, bytes @2+i, size = ceil(2 + n, 2).  N = 7.
+#[kani::proof]
+#[kani::unwind(26)]
+fn c15_string_from_str() {
+    with_buf::<24>(7, 2, |b, len, off| {
+        let e: [u8; 3] = any_arr();
+        let n = any_fill(3);
+        let s = match core::str::from_utf8(&e[..n]) { Ok(s) => s, Err(_) => return };
+        let r = FlatString::<u16>::new_in_place(b, flatty::string::FromStr(s));
+        let need = ceil_to(2 + n, 2);
+        c15_outcome!(r, off, len, need);
+        if let Ok(v) = r {
+            assert!(v.len() == n && v.capacity() == floor_to(len - 2, 2));
+            assert!(v.size() == need);
+            let rs = v.as_str().as_bytes();
+            let img = v.as_bytes();
+            assert!(rd_u16(img, 0) as usize == n);
+            assert!(rs.len() == n);
+            let mut i = 0;
+            while i < 3 {
+                if i < n { assert!(rs[i] == e[i] && img[2 + i] == e[i]); }
+                i += 1;
+            }
+            assert!(FlatString::<u16>::validate(b).is_ok());
+        }
+    });
+}
+
+/// FlatString literals: FromStr("ab"), flat_string!("") and a two-byte character, on a 6-byte garbage buffer.
+#[kani::proof]
+#[kani::unwind(10)]
+fn c03_string_literals() {
+    let mut back = Backing::<8>(kani::any());
+    {
+        let v = FlatString::<u16>::new_in_place(&mut back.0[..6], flatty::string::FromStr("ab")).unwrap();
+        assert!(v.as_str() == "ab" && v.len() == 2 && v.size() == 4);
+    }
+    assert!(rd_u16(&back.0, 0) == 2 && back.0[2] == b'a' && back.0[3] == b'b');
+    assert!(FlatString::<u16>::validate(&back.0[..6]).is_ok());
+    let mut back = Backing::<8>(kani::any());
+    {
+        let v = FlatString::<u16>::new_in_place(&mut back.0[..6], flatty::string::flat_string!("")).unwrap();
+        assert!(v.as_str() == "" && v.len() == 0 && v.size() == 2);
+    }
+    assert!(rd_u16(&back.0, 0) == 0);
+    let mut back = Backing::<8>(kani::any());
+    {
+        let v = FlatString::<u16>::new_in_place(&mut back.0[..6], flatty::string::flat_string!("\u{e9}!")).unwrap();
+        assert!(v.as_str() == "\u{e9}!" && v.len() == 3 && v.size() == 6);
+    }
+    assert!(rd_u16(&back.0, 0) == 3 && back.0[2] == 0xc3 && back.0[3] == 0xa9 && back.0[4] == b'!');
+    // too long for the buffer
+    let mut back = Backing::<8>(kani::any());
+    assert!(is_kind(&FlatString::<u16>::new_in_place(&mut back.0[..4], flatty::string::FromStr("abc")), ErrorKind::InsufficientSize));
+}
+
+/// FlexVec<u16,u16> (sized items, align 2): chain of [next: u16][item: u16]; the last item's slot holds u16::MAX,
+/// an empty vector is a single 0 slot.  m items need max(2, 4m) bytes.  Via flatty::flex::FromIterator::new with a
+/// symbolic number of items 0..=3 (m == 0 is the same state as Empty/default).  N = 11.
+#[kani::proof]
+#[kani::unwind(30)]
+fn c15_flex_u16_from_iterator() {
+    with_buf::<28>(11, 2, |b, len, off| {
+        let e: [u16; 3] = any_arr();
+        let m = any_fill(3);
+        let r = FlexVec::<u16, u16>::new_in_place(b, flatty::flex::FromIterator::new(e.into_iter().take(m)));
+        let need = if m == 0 { 2 } else { 4 * m };
+        c15_outcome!(r, off, len, need);
+        if let Ok(v) = r {
+            assert!(v.len() == m, "C03: number of items read back differs");
+            assert!(v.is_empty() == (m == 0));
+            assert!(v.size() == need);
+            {
+                let mut it = v.iter();
+                let mut i = 0;
+                while i < 3 {
+                    if i < m { assert!(*it.next().unwrap() == e[i]); }
+                    i += 1;
+                }
+                assert!(it.next().is_none());
+            }
+            let img = v.as_bytes();
+            let mut i = 0;
+            while i < 3 {
+                if i < m {
+                    let slot = rd_u16(img, 4 * i);
+                    if i + 1 < m { assert!(slot == 4, "C03: offset slot of an inner item"); } else { assert!(slot == u16::MAX, "C03: offset slot of the last item"); }
+                    assert!(rd_u16(img, 4 * i + 2) == e[i]);
+                }
+                i += 1;
+            }
+            if m == 0 { assert!(rd_u16(img, 0) == 0); }
+            assert!(FlexVec::<u16, u16>::validate(b).is_ok());
+        }
+    });
+}
+
+/// FlexVec<FlatVec<u8,u8>,u8> (UNSIZED items, align 1) with nested flat_vec! item emplacers:
+/// [next][len][e..][next][len][e..]; inner items: next = 1 + 1 + len, last item: next = 255.
+/// Two items flat_vec![x0, x1], flat_vec![y0, y1] need 8 bytes; one item needs 4; N = 10.
+#[kani::proof]
+#[kani::unwind(28)]
+fn c15_flex_unsized_items() {
+    with_buf::<26>(10, 1, |b, len, off| {
+        let (x, y): ([u8; 2], [u8; 2]) = (any_arr(), any_arr());
+        let m = any_fill(2);
+        let items = [flat_vec![x[0], x[1]], flat_vec![y[0], y[1]]];
+        let r = FlexVec::<FlatVec<u8, u8>, u8>::new_in_place(b, flatty::flex::FromIterator::new(items.into_iter().take(m)));
+        let need = if m == 0 { 1 } else { 4 * m };
+        c15_outcome!(r, off, len, need);
+        if let Ok(v) = r {
+            assert!(v.len() == m);
+            assert!(v.size() == need);
+            {
+                let mut it = v.iter();
+                if m >= 1 {
+                    let i0 = it.next().unwrap();
+                    assert!(i0.len() == 2 && i0.as_slice()[0] == x[0] && i0.as_slice()[1] == x[1]);
+                }
+                if m >= 2 {
+                    let i1 = it.next().unwrap();
+                    assert!(i1.len() == 2 && i1.as_slice()[0] == y[0] && i1.as_slice()[1] == y[1]);
+                }
+                assert!(it.next().is_none());
+            }
+            let img = v.as_bytes();
+            match m {
+                0 => assert!(img[0] == 0),
+                1 => assert!(img[0] == 255 && img[1] == 2 && img[2] == x[0] && img[3] == x[1]),
+                _ => {
+                    assert!(img[0] == 4 && img[1] == 2 && img[2] == x[0] && img[3] == x[1]);
+                    assert!(img[4] == 255 && img[5] == 2 && img[6] == y[0] && img[7] == y[1]);
+                }
+            }
+            assert!(FlexVec::<FlatVec<u8, u8>, u8>::validate(b).is_ok());
+        }
+    });
+}
+
+/// FlatWrap::new_in_place with the pointer type `&mut [u8]` (TrustedRef + AsRef + AsMut): same three-way outcome as
+/// UStruct::new_in_place, the wrapper derefs to the emplaced value and gives the pointer back.  N = 11.
+#[kani::proof]
+#[kani::unwind(30)]
+fn c15_wrap_new_in_place() {
+    with_buf::<28>(11, 2, |b, len, off| {
+        let (a, bb): (u8, u16) = (kani::any(), kani::any());
+        let e: [u8; 3] = any_arr();
+        let r = FlatWrap::<UStruct, &mut [u8]>::new_in_place(b, UStructInit { a, b: bb, c: flatty::vec::FromArray(e) });
+        c15_outcome!(r, off, len, 10);
+        if let Ok(mut w) = r {
+            assert!(w.a == a && w.b == bb && w.c.len() == 3 && w.size() == 10);
+            assert!(w.c.as_slice()[0] == e[0] && w.c.as_slice()[1] == e[1] && w.c.as_slice()[2] == e[2]);
+            // DerefMut maps the same bytes
+            w.a = !a;
+            let p = w.into_inner();
+            assert!(p.len() == len);
+            assert!(p[0] == !a && rd_u16(p, 2) == bb && rd_u16(p, 4) == 3 && p[6] == e[0] && p[7] == e[1] && p[8] == e[2]);
+            assert!(UStruct::validate(p).is_ok());
+        }
+    });
+}
+
+/// FlatWrap::default_in_place(&mut [u8]) for an unsized enum.  N = 6.
+#[kani::proof]
+#[kani::unwind(26)]
+fn c15_wrap_default_in_place() {
+    with_buf::<24>(6, 4, |b, len, off| {
+        let r = FlatWrap::<UEnum, &mut [u8]>::default_in_place(b);
+        c15_outcome!(r, off, len, 4);
+        if let Ok(w) = r {
+            assert!(matches!(w.as_ref(), UEnumRef::A) && w.size() == 4);
+            let p = w.into_inner();
+            assert!(p[0] == 0 && UEnum::validate(p).is_ok());
+        }
+    });
+}
+
+// ------------------------------------------------------------------------------------------------------------------
+// C14 first form + C03: exact-size heap allocation (util::sym_slice), concrete lengths: any access past the slice is
+// an out-of-bounds object access for CBMC.
+// ------------------------------------------------------------------------------------------------------------------
+
+/// UStruct exactly full (len 10 = 6 + 4) and with one spare byte that is not a whole element slot (len 11).
+#[kani::proof]
+#[kani::unwind(14)]
+fn c03_exact_ustruct() {
+    let odd: bool = kani::any();
+    let b = if odd { sym_slice(11, 2, 0, 11) } else { sym_slice(10, 2, 0, 11) };
+    let (a, bb): (u8, u16) = (kani::any(), kani::any());
+    let e: [u8; 4] = any_arr();
+    let v = UStruct::new_in_place(b, UStructInit { a, b: bb, c: flat_vec![e[0], e[1], e[2], e[3]] }).unwrap();
+    assert!(v.a == a && v.b == bb && v.c.len() == 4 && v.c.is_full() && v.size() == 10);
+    assert!(v.c.push(0).is_err());
+    assert!(b[0] == a && rd_u16(b, 2) == bb && rd_u16(b, 4) == 4 && b[6] == e[0] && b[9] == e[3]);
+    assert!(UStruct::validate(b).is_ok());
+    // one byte less: refused, nothing past the 9 bytes touched
+    let b9 = sym_slice(9, 2, 0, 11);
+    assert!(is_kind(&UStruct::new_in_place(b9, UStructInit { a, b: bb, c: flat_vec![e[0], e[1], e[2], e[3]] }), ErrorKind::InsufficientSize));
+}
+
+/// UEnum::C exactly full (len 12 = 4 + 4 + 2 + 2), and with 3 spare bytes below the next multiple of the alignment.
+#[kani::proof]
+#[kani::unwind(18)]
+fn c03_exact_uenum() {
+    let spare: bool = kani::any();
+    let b = if spare { sym_slice(15, 4, 0, 15) } else { sym_slice(12, 4, 0, 15) };
+    let offset: u32 = kani::any();
+    let e: [u8; 2] = any_arr();
+    let v = UEnum::new_in_place(b, UEnumInitC { offset, bytes: flat_vec![e[0], e[1]] }).unwrap();
+    assert!(v.size() == 12);
+    match v.as_mut() {
+        UEnumMut::C { offset: o, bytes } => { assert!(*o == offset && bytes.len() == 2 && bytes.is_full()); assert!(bytes.push(1).is_err()); }
+        _ => panic!(),
+    }
+    assert!(b[0] == 2 && rd_u32(b, 4) == offset && rd_u16(b, 8) == 2 && b[10] == e[0] && b[11] == e[1]);
+    assert!(UEnum::validate(b).is_ok());
+    let b8 = sym_slice(8, 4, 0, 15);
+    assert!(is_kind(&UEnum::new_in_place(b8, UEnumInitC { offset, bytes: flat_vec![] }), ErrorKind::InsufficientSize));
+    let b4 = sym_slice(4, 4, 0, 15);
+    assert!(is_kind(&UEnum::new_in_place(b4, UEnumInitB(1, 2)), ErrorKind::InsufficientSize));
+    assert!(UEnum::new_in_place(b4, UEnumInitA).is_ok());
+}
+
+/// empty slice at an aligned address: every constructor refuses with InsufficientSize, none touches memory
+#[kani::proof]
+#[kani::unwind(4)]
+fn c15_empty_slice() {
+    let b = sym_slice(0, 8, 0, 0);
+    assert!(is_kind(&u8::default_in_place(b), ErrorKind::InsufficientSize));
+    assert!(is_kind(&SStruct::default_in_place(b), ErrorKind::InsufficientSize));
+    assert!(is_kind(&UStruct::default_in_place(b), ErrorKind::InsufficientSize));
+    assert!(is_kind(&UPad::default_in_place(b), ErrorKind::InsufficientSize));
+    assert!(is_kind(&UEnum::default_in_place(b), ErrorKind::InsufficientSize));
+    assert!(is_kind(&PUEnum::default_in_place(b), ErrorKind::InsufficientSize));
+    assert!(is_kind(&FlatVec::<u8, u16>::default_in_place(b), ErrorKind::InsufficientSize));
+    assert!(is_kind(&FlatString::<u16>::default_in_place(b), ErrorKind::InsufficientSize));
+    assert!(is_kind(&FlexVec::<u16, u16>::default_in_place(b), ErrorKind::InsufficientSize));
+    assert!(is_kind(&FlatWrap::<UEnum, &mut [u8]>::default_in_place(b), ErrorKind::InsufficientSize));
+}
+
+// ------------------------------------------------------------------------------------------------------------------
+// C20: default_in_place (symbolic garbage, symbolic length and offset; concrete expected fields and bytes)
+// ------------------------------------------------------------------------------------------------------------------
+
+/// sized primitives, arrays, portable scalars: zero / Default::default(), all bytes of the value are 0
+#[kani::proof]
+#[kani::unwind(18)]
+fn c20_primitives() {
+    macro_rules! prim {
+        ($T:ty, $size:expr, $zero:expr) => {{
+            let mut back = Backing::<16>(kani::any());
+            {
+                let v = <$T>::default_in_place(&mut back.0[..]).unwrap();
+                assert!(*v == $zero && *v == <$T as Default>::default());
+                assert!(v.size() == $size);
+            }
+            let mut i = 0;
+            while i < $size {
+                assert!(back.0[i] == 0);
+                i += 1;
+            }
+            assert!(<$T>::validate(&back.0[..]).is_ok());
+        }};
+    }
+    prim!(u8, 1, 0);
+    prim!(i16, 2, 0);
+    prim!(u32, 4, 0);
+    prim!(u64, 8, 0);
+    prim!(i64, 8, 0);
+    prim!(f32, 4, 0.0);
+    prim!([u16; 3], 6, [0u16; 3]);
+    prim!(Bool, 1, Bool::False);
+    prim!(le::U16, 2, le::U16::from(0));
+    prim!(be::U32, 4, be::U32::from(0));
+    prim!(le::I64, 8, le::I64::from(0));
+}
+
+/// sized corpus types: result == Default::default(), independent of the garbage; C15 outcome for every len/off
+macro_rules! c20_sized {
+    ($name:ident, $T:ty, $align:expr, $size:expr, $n:expr, $tbytes:expr, $unwind:literal, |$v:ident, $img:ident| $extra:expr) => {
+        #[kani::proof]
+        #[kani::unwind($unwind)]
+        fn $name() {
+            with_buf::<$tbytes>($n, $align, |b, len, off| {
+                let r = <$T>::default_in_place(b);
+                c15_outcome!(r, off, len, $size);
+                if let Ok($v) = r {
+                    assert!(*$v == <$T as Default>::default(), "C20: not equal to Default::default()");
+                    assert!($v.size() == $size);
+                    let $img = $v.as_bytes();
+                    assert!($img.len() == $size);
+                    $extra;
+                    assert!(<$T>::validate(b).is_ok());
+                }
+            });
+        }
+    };
+}
+c20_sized!(c20_sstruct, SStruct, 8, 24, 25, 48, 50, |v, img| {
+    assert!(v.a == 0 && v.b == 0 && v.c == 0 && v.d == [0, 0]);
+    assert!(img[0] == 0 && rd_u16(img, 2) == 0 && rd_u32(img, 4) == 0);
+    let mut i = 8;
+    while i < 24 { assert!(img[i] == 0); i += 1; }
 });
-stamp!(c15_probe_prefix_off, 13, {
-    let mut back = Backing::<16>(kani::any());
-    let len: usize = kani::any();
-    let off: usize = kani::any();
-    kani::assume(len <= 11 && off < 2);
-    let b = &mut back.0[off..off + len];
-    ustruct_probe2::<4>(b, len, off)
+c20_sized!(c20_sbool, SBool, 4, 12, 13, 32, 34, |v, img| {
+    assert!(v.x == 0 && v.flag == Bool::False && v.arr == [Bool::False, Bool::False] && v.y == 0);
+    assert!(img[0] == 0 && img[1] == 0 && img[2] == 0 && img[3] == 0 && img[4] == 0 && rd_u32(img, 8) == 0);
 });
+c20_sized!(c20_senum, SEnum, 4, 8, 9, 24, 26, |v, img| {
+    assert!(matches!(*v, SEnum::A), "C20: not the #[default] variant");
+    assert!(img[0] == 0);
+});
+c20_sized!(c20_cenum, CEnum, 1, 1, 2, 16, 18, |v, img| {
+    assert!(matches!(*v, CEnum::A), "C20: not the #[default] variant");
+    assert!(img[0] == 0);
+});
+
+/// PStruct has default = true but no PartialEq: compare field by field
+#[kani::proof]
+#[kani::unwind(26)]
+fn c20_pstruct() {
+    with_buf::<24>(9, 1, |b, len, off| {
+        let r = PStruct::default_in_place(b);
+        c15_outcome!(r, off, len, 8);
+        if let Ok(v) = r {
+            let d = PStruct::default();
+            assert!(v.a == 0 && u16::from(v.b) == 0 && u32::from(v.c) == 0 && v.f == Bool::False);
+            assert!(v.a == d.a && v.b == d.b && v.c == d.c && v.f == d.f, "C20: not equal to Default::default()");
+            assert!(v.size() == 8);
+            let img = v.as_bytes();
+            let mut i = 0;
+            while i < 8 { assert!(img[i] == 0); i += 1; }
+            assert!(PStruct::validate(b).is_ok());
+        }
+    });
+}
+
+/// UStruct: a = 0, b = 0, c empty; size() = MIN_SIZE = 6
+#[kani::proof]
+#[kani::unwind(26)]
+fn c20_ustruct() {
+    with_buf::<24>(9, 2, |b, len, off| {
+        let r = UStruct::default_in_place(b);
+        c15_outcome!(r, off, len, 6);
+        if let Ok(v) = r {
+            assert!(v.a == 0 && v.b == 0 && v.c.len() == 0 && v.c.is_empty());
+            assert!(v.c.capacity() == floor_to(len, 2) - 6);
+            assert!(v.size() == 6 && v.size() == <UStruct as FlatBase>::MIN_SIZE, "C20: size() is not minimal");
+            let img = v.as_bytes();
+            assert!(img[0] == 0 && rd_u16(img, 2) == 0 && rd_u16(img, 4) == 0);
+            assert!(UStruct::validate(b).is_ok());
+        }
+    });
+}
+
+/// UPad: a = 0, v empty; size() = MIN_SIZE = 16 (10 rounded up to the alignment 8)
+#[kani::proof]
+#[kani::unwind(42)]
+fn c20_upad() {
+    with_buf::<40>(18, 8, |b, len, off| {
+        let r = UPad::default_in_place(b);
+        c15_outcome!(r, off, len, 16);
+        if let Ok(v) = r {
+            assert!(v.a == 0 && v.v.len() == 0);
+            assert!(v.size() == 16 && v.size() == <UPad as FlatBase>::MIN_SIZE, "C20: size() is not minimal");
+            let img = v.as_bytes();
+            let mut i = 0;
+            while i < 10 { assert!(img[i] == 0); i += 1; }
+            assert!(UPad::validate(b).is_ok());
+        }
+    });
+}
+
+/// UEnum: the #[default] variant A; size() = MIN_SIZE = 4
+#[kani::proof]
+#[kani::unwind(30)]
+fn c20_uenum() {
+    with_buf::<28>(13, 4, |b, len, off| {
+        let r = UEnum::default_in_place(b);
+        c15_outcome!(r, off, len, 4);
+        if let Ok(v) = r {
+            assert!(matches!(v.as_ref(), UEnumRef::A), "C20: not the #[default] variant");
+            assert!(v.size() == 4 && v.size() == <UEnum as FlatBase>::MIN_SIZE, "C20: size() is not minimal");
+            assert!(v.as_bytes()[0] == 0);
+            assert!(UEnum::validate(b).is_ok());
+        }
+    });
+}
+
+/// UBoolVec: n = 0, flags empty; size() = MIN_SIZE = 2
+#[kani::proof]
+#[kani::unwind(22)]
+fn c20_uboolvec() {
+    with_buf::<20>(5, 1, |b, len, off| {
+        let r = UBoolVec::default_in_place(b);
+        c15_outcome!(r, off, len, 2);
+        if let Ok(v) = r {
+            assert!(v.n == 0 && v.flags.len() == 0 && v.flags.capacity() == len - 2);
+            assert!(v.size() == 2 && v.size() == <UBoolVec as FlatBase>::MIN_SIZE, "C20: size() is not minimal");
+            let img = v.as_bytes();
+            assert!(img[0] == 0 && img[1] == 0);
+            assert!(UBoolVec::validate(b).is_ok());
+        }
+    });
+}
+
+/// PUStruct: a = 0, b empty; size() = MIN_SIZE = 4.  PUEnum: variant A; size() = MIN_SIZE = 1.
+#[kani::proof]
+#[kani::unwind(22)]
+fn c20_pustruct_puenum() {
+    with_buf::<20>(6, 1, |b, len, off| {
+        let r = PUStruct::default_in_place(b);
+        c15_outcome!(r, off, len, 4);
+        if let Ok(v) = r {
+            assert!(u16::from(v.a) == 0 && v.b.len() == 0 && v.b.capacity() == (len - 4) / 2);
+            assert!(v.size() == 4 && v.size() == <PUStruct as FlatBase>::MIN_SIZE, "C20: size() is not minimal");
+            let img = v.as_bytes();
+            assert!(img[0] == 0 && img[1] == 0 && img[2] == 0 && img[3] == 0);
+            assert!(PUStruct::validate(b).is_ok());
+        }
+    });
+    with_buf::<20>(6, 1, |b, len, off| {
+        let r = PUEnum::default_in_place(b);
+        c15_outcome!(r, off, len, 1);
+        if let Ok(v) = r {
+            assert!(matches!(v.as_ref(), PUEnumRef::A), "C20: not the #[default] variant");
+            assert!(v.size() == 1 && v.size() == <PUEnum as FlatBase>::MIN_SIZE, "C20: size() is not minimal");
+            assert!(v.as_bytes()[0] == 0);
+            assert!(PUEnum::validate(b).is_ok());
+        }
+    });
+}
+
+/// FlatVec<u32,u16>, FlatString<u16>, FlexVec<u16,u16>, FlexVec<FlatVec<u8,u8>,u8>: the empty state
+#[kani::proof]
+#[kani::unwind(26)]
+fn c20_containers() {
+    with_buf::<24>(9, 4, |b, len, off| {
+        let r = FlatVec::<u32, u16>::default_in_place(b);
+        c15_outcome!(r, off, len, 4);
+        if let Ok(v) = r {
+            assert!(v.len() == 0 && v.is_empty() && v.capacity() == (floor_to(len, 4) - 4) / 4);
+            assert!(v.size() == 4 && v.size() == <FlatVec<u32, u16> as FlatBase>::MIN_SIZE, "C20: size() is not minimal");
+            assert!(rd_u16(v.as_bytes(), 0) == 0);
+            assert!(FlatVec::<u32, u16>::validate(b).is_ok());
+        }
+    });
+    with_buf::<24>(5, 2, |b, len, off| {
+        let r = FlatString::<u16>::default_in_place(b);
+        c15_outcome!(r, off, len, 2);
+        if let Ok(v) = r {
+            assert!(v.len() == 0 && v.is_empty() && v.as_str() == "" && v.capacity() == floor_to(len - 2, 2));
+            assert!(v.size() == 2 && v.size() == <FlatString<u16> as FlatBase>::MIN_SIZE, "C20: size() is not minimal");
+            assert!(rd_u16(v.as_bytes(), 0) == 0);
+            assert!(FlatString::<u16>::validate(b).is_ok());
+        }
+    });
+    with_buf::<24>(7, 2, |b, len, off| {
+        let r = FlexVec::<u16, u16>::default_in_place(b);
+        c15_outcome!(r, off, len, 2);
+        if let Ok(v) = r {
+            assert!(v.len() == 0 && v.is_empty() && v.iter().next().is_none());
+            assert!(v.size() == 2 && v.size() == <FlexVec<u16, u16> as FlatBase>::MIN_SIZE, "C20: size() is not minimal");
+            assert!(rd_u16(v.as_bytes(), 0) == 0);
+            assert!(FlexVec::<u16, u16>::validate(b).is_ok());
+        }
+    });
+    with_buf::<24>(4, 1, |b, len, off| {
+        let r = FlexVec::<FlatVec<u8, u8>, u8>::default_in_place(b);
+        c15_outcome!(r, off, len, 1);
+        if let Ok(v) = r {
+            assert!(v.len() == 0 && v.is_empty());
+            assert!(v.size() == 1, "C20: size() is not minimal");
+            assert!(v.as_bytes()[0] == 0);
+            assert!(FlexVec::<FlatVec<u8, u8>, u8>::validate(b).is_ok());
+        }
+    });
+}
